@@ -30,6 +30,12 @@ CONFIGS = {
     'bool_nu': ('vf::act_bool',  'bool',  'vf::lcontrol_nu', False, 2),
     'void0':   ('vf::act0_void', 'void0', 'vf::lcontrol',    True, 2),
     'bool0':   ('vf::act0_bool', 'bool0', 'vf::lcontrol',    True,  2),
+    # sub-rules with the simple rule interface match( in ) (vf::syml): a different branch of match_no_control(); exceptions start inside a "leaf"
+    'leaf':    ('tao::pegtl::nothing', None,    'vf::lcontrol',    True,  0),
+    'leaf_bool': ('vf::act_bool',  'bool',  'vf::lcontrol',    True,  2),
+    # the run is made from a destructor while an unrelated exception propagates (std::uncaught_exceptions() > 0)
+    'unw':     ('tao::pegtl::nothing', None,    'vf::lcontrol',    True,  0),
+    'unw_bool': ('vf::act_bool',  'bool',  'vf::lcontrol',    True,  2),
     'mustif':  ('tao::pegtl::nothing', None, 'vf::mi_control', True, 0),
     'mustif_bool': ('vf::act_bool', 'bool', 'vf::mi_control', True, 2),
     'statectl': ('tao::pegtl::nothing', None, 'vf::sc_control', True, 0),
@@ -52,7 +58,8 @@ def queries(ctx, prefix, grammars, configs, N, K=3, modes=('ar', 'ao', 'nr'), in
             wrappers = []
             for m in modes:
                 w = 'w_%s_%s_%s' % (gname, tag, m)
-                wl.append('%s( %s, %s, %s, %s, %s, %s%s )' % ('VF_WRAP_HS2' if tag == 'statectl_rot' else 'VF_WRAP_OS' if tag == 'rmfirst' else 'VF_WRAP_HS' if tag.startswith('statectl') else 'VF_WRAP', w, gtext, AM[m[0]], RM[m[1]], act, ctl, ', vf::lazy_in' if lazy else ''))
+                cxx = gtext.replace('sym<', 'vf::syml<') if tag.startswith('leaf') else gtext
+                wl.append('%s( %s, %s, %s, %s, %s, %s%s )' % ('VF_WRAP_HS2' if tag == 'statectl_rot' else 'VF_WRAP_OS' if tag == 'rmfirst' else 'VF_WRAP_HS' if tag.startswith('statectl') else 'VF_WRAP_UNW' if tag.startswith('unw') else 'VF_WRAP', w, cxx, AM[m[0]], RM[m[1]], act, ctl, ', vf::lazy_in' if lazy else ''))
                 wrappers.append((w, 1 if m[0] == 'a' else 0, 1 if m[1] == 'r' else 0, m))
             text = WRAP_HEAD % {'includes': '\n'.join('#include <%s>' % i for i in includes), 'preamble': preamble} + '\n'.join(wl) + '\n'
             unit = ctx.unit('%s_%s_%s%s' % (prefix, gname, tag, '_lazy' if lazy else ''), text=text)
@@ -65,7 +72,7 @@ def queries(ctx, prefix, grammars, configs, N, K=3, modes=('ar', 'ao', 'nr'), in
             for m in modes:
                 qs.append(vf.Query('%s%s/%s/%s' % (gname, '.lazy' if lazy else '', tag, m), unit, h, unwind=n + 3, mem_gb=opts.get('mem_gb', 2),
                                    unwindset=['ev_setup.1:13', 'ev_setup.0:%d' % (n + 2), 'ev_compare.0:%d' % (em + 1)],
-                                   cbmc_defines={'VF_SPLIT': 1, 'V_' + m: 1},
+                                   cbmc_defines={'VF_SPLIT': 1, 'V_' + m: 1}, defines={'SP_LEAFSYM': 1} if tag.startswith('leaf') else {},
                                    bounds={'N': n, 'K': K, 'grammar': gtext, 'action': act, 'control': ctl, 'mode': m, 'max_events': em, 'input': 'lazy' if lazy else 'eager'},
                                    known=opts.get('known', known),
                                    note='hook/action event log of the real run == reference protocol'))
